@@ -1,10 +1,10 @@
 package main
 
 import (
-	"github.com/peterstace/simplefeatures/geom"
 	"bytes"
 	"encoding/json"
 	"fmt"
+	"github.com/peterstace/simplefeatures/geom"
 	"math"
 	"strconv"
 )
